@@ -643,7 +643,10 @@ pub fn c12(rep: &mut Report, scratch: &std::path::Path, rng: &mut Rng, corpora: 
         let (mut w, cfg) = open_world(rep, &dir, rng.fork());
         let docs = w.rng.usize(6, max_docs);
         let cc = CorpusCfg { docs, acl: true, embeddings: true, long_docs: false };
-        if exec_op(&mut w, &cfg, &json!({"op": "create"})) && build_corpus(&mut w, &cfg, &cc, &BTreeMap::new()) {
+        // one unique alphabetic word per document, so that a denied document is recognisable inside context / answer strings
+        let uniq = |d: usize| -> String { let mut s = String::from("qzu"); let mut n = d; loop { s.push(char::from(b'a' + (n % 26) as u8)); n /= 26; if n == 0 { break; } } s.push_str("vq"); s };
+        let planted: BTreeMap<String, Vec<usize>> = (0..docs).map(|d| (uniq(d), vec![d])).collect();
+        if exec_op(&mut w, &cfg, &json!({"op": "create"})) && build_corpus(&mut w, &cfg, &cc, &planted) {
             let metas: Vec<BTreeMap<String, String>> = w.model.frames.iter().map(|m| m.extra_given.clone()).collect();
             for _ in 0..requests {
                 w.rep.eval();
@@ -664,7 +667,20 @@ pub fn c12(rep: &mut Report, scratch: &std::path::Path, rng: &mut Rng, corpora: 
                     2 => { w.rep.count("vector_requests"); w.mem().search_adaptive_acl(&word, &qv, memvid_core::types::adaptive::AdaptiveConfig::default(), 80, None, Some(&ctx), mode).map(|x| (x.results.iter().map(|h| h.frame_id).collect(), String::new(), x.results.len())) }
                     _ => {
                         w.rep.count("ask_requests");
-                        let ar = memvid_core::types::AskRequest { question: word.clone(), top_k: 20, snippet_chars: 80, uri: None, scope: None, cursor: None, start: None, end: None, context_only: true, mode: memvid_core::types::AskMode::Lex, as_of_frame: None, as_of_ts: None, adaptive: None, acl_context: Some(ctx.clone()), acl_enforcement_mode: mode };
+                        // plain word, a natural-language question, or one of the comparative / temporal phrasings that ask()
+                        // answers from the timeline instead of the search hits
+                        let other = w.rng.pick(query::VOCAB).to_string();
+                        let question = match w.rng.below(8) {
+                            0 | 1 => word.clone(),
+                            2 => format!("what do we know about {word}"),
+                            3 => format!("compare {word} versus {other}"),
+                            4 => format!("how did {word} change over time"),
+                            5 => format!("what is the history of {word} and {other}"),
+                            6 => format!("are there any changes to {word} that reverted"),
+                            _ => format!("difference between {word} and {other} before and after"),
+                        };
+                        w.rep.count(if question == word { "ask_plain_word" } else { "ask_phrased_questions" });
+                        let ar = memvid_core::types::AskRequest { question, top_k: 20, snippet_chars: 80, uri: None, scope: None, cursor: None, start: None, end: None, context_only: true, mode: memvid_core::types::AskMode::Lex, as_of_frame: None, as_of_ts: None, adaptive: None, acl_context: Some(ctx.clone()), acl_enforcement_mode: mode };
                         w.mem().ask(ar, None::<&NoEmbedder>).map(|x| {
                             let mut ids: Vec<u64> = x.retrieval.hits.iter().map(|h| h.frame_id).collect();
                             ids.extend(x.citations.iter().map(|c| c.frame_id));
@@ -679,12 +695,27 @@ pub fn c12(rep: &mut Report, scratch: &std::path::Path, rng: &mut Rng, corpora: 
                     match exposed {
                         Err(_) if !tenant_ok => w.rep.count("enforce_without_tenant_rejected"),
                         Ok(_) if !tenant_ok => { w.violation(&format!("C12:enforce-without-tenant-accepted:{ename}"), "Enforce mode without a tenant id returned a result".into()); break; }
-                        Err(e) => { if matches!(e, MemvidError::VecNotEnabled | MemvidError::LexNotEnabled) { continue; } w.violation(&format!("C12:enforce-request-failed:{ename}"), e.to_string()); break; }
-                        Ok((ids, _context, _)) => {
+                        Err(e) => {
+                            // a request that fails exposes nothing; a question whose words form an invalid query (operators such as
+                            // "and" at the end) is counted, not judged
+                            if matches!(e, MemvidError::VecNotEnabled | MemvidError::LexNotEnabled) { continue; }
+                            if matches!(e, MemvidError::InvalidQuery { .. }) { w.rep.count("requests_rejected_as_invalid_query"); continue; }
+                            w.violation(&format!("C12:enforce-request-failed:{ename}"), e.to_string());
+                            break;
+                        }
+                        Ok((ids, context, _)) => {
                             w.rep.add("hits_checked", ids.len() as u64);
                             if let Some(leak) = ids.iter().find(|id| denied.contains(id)) {
                                 let m = &metas[*leak as usize];
                                 w.violation(&format!("C12:denied-frame-returned:{ename}"), format!("frame {leak} with ACL metadata {m:?} is denied to {ctx:?} but was returned"));
+                                break;
+                            }
+                            // the text handed back (context / answer) must not contain a denied document's unique word
+                            let lower = context.to_lowercase();
+                            w.rep.count("context_strings_scanned");
+                            if let Some(leak) = denied.iter().find(|id| (**id as usize) < docs && lower.contains(&uniq(**id as usize))) {
+                                let m = &metas[*leak as usize];
+                                w.violation(&format!("C12:denied-text-in-context:{ename}"), format!("the unique word of frame {leak} (ACL metadata {m:?}, denied to {ctx:?}) occurs in the returned context"));
                                 break;
                             }
                         }
